@@ -60,8 +60,8 @@ def commitBy (P : GrothPub) (r : Int) (m : List Int) : Except Err Int := do
     let c ← fspowm P.S.tabH P.S.h r P.S.G.p
     comProd P true m 0 c
 
-/-- `PedersenCommitmentScheme::TestMembership` -/
-def testMembership (P : GrothPub) (c : Int) : Bool := 0 < c && c < P.S.G.p
+/-- `PedersenCommitmentScheme::TestMembership`: `0 < c < p` and `c^q ≡ 1 (mod p)` -/
+def testMembership (P : GrothPub) (c : Int) : Bool := checkElement .schnorr P.S.G c
 
 /-- `PedersenCommitmentScheme::Verify` -/
 def comVerify (P : GrothPub) (c r : Int) (m : List Int) : Except Err Bool := do
@@ -403,6 +403,27 @@ def grothVerify (mode : Mode) (P : GrothPub) (e E : List Card) : M Bool := do
   let ok ← liftE (grothFinal P e E t f Ed Z)
   if !ok then reject
   pure true
+
+/-- the membership loop of the stack-level verifiers: both components of every card of the input
+    stack and of the shuffled stack (`vtmf->CheckElement`) -/
+def stacksInGroup (S : State) (s s2 : List Card) : Bool :=
+  (List.range s2.length).all fun i =>
+    checkElement .schnorr S.G (s.getD i ⟨0, 0⟩).c1 && checkElement .schnorr S.G (s.getD i ⟨0, 0⟩).c2 &&
+    checkElement .schnorr S.G (s2.getD i ⟨0, 0⟩).c1 && checkElement .schnorr S.G (s2.getD i ⟨0, 0⟩).c2
+
+/-- `SchindelhauerTMCG::TMCG_VerifyStackEquality_Hoogh(_noninteractive)` for matching parameters:
+    sizes, membership of both stacks, then the rotation argument -/
+def hooghVerifyStack (mode : Mode) (S : State) (s s2 : List Card) : M Bool := do
+  if s.length ≠ s2.length then return false
+  if !stacksInGroup S s s2 then return false
+  vrheVerify mode S s s2
+
+/-- `SchindelhauerTMCG::TMCG_VerifyStackEquality_Groth(_noninteractive)` for matching parameters -/
+def grothVerifyStack (mode : Mode) (P : GrothPub) (s s2 : List Card) : M Bool := do
+  if s.length > P.cg.length then return false
+  if s.length ≠ s2.length then return false
+  if !stacksInGroup P.S s s2 then return false
+  grothVerify mode P s s2
 
 /-- the witness as `SchindelhauerTMCG::TMCG_ProveStackEquality_Groth` derives it from a stack secret:
     `π(i) = ss[i].first`, `R[i] = ss[ss[i].first].second.r` -/
